@@ -66,9 +66,35 @@ COSIM_ASSUME = ["each lock-held section of raft.go is atomic (mutex discipline: 
 _SAFETY_EXCL = ("lease", "ro", "sv", "Read")
 
 
-def cosim_plan(exclude=()):
-    return {"harness": ["cosim"], "drivers": cosim_drivers(exclude), "rule": COSIM_RULE, "assumptions": COSIM_ASSUME,
-            "nontrivial": lambda l: False}
+def handler_driver(which):
+    def f(ctx):
+        quick = ctx.tier == "quick"
+        return [{"name": "handlerdiff-" + which, "cases": "handler.cases", "kinds": ["HSEQ"],
+                 "cmd": [os.path.join(HB, "handlerdiff"), "-seed", str(ctx.seed), "-which", which, "-out", "handler.cases",
+                         "-ae", "3" if quick else "40", "-rv", "120" if quick else "1500", "-crash", "150" if quick else "1500",
+                         "-is", "2500" if quick else "30000"]}]
+    return f
+
+
+HANDLER_RULE = (" PLUS handler-level differential on the property's bounded domain: the real handler of a node put into a state "
+                "(VerifSetState hook: every non-decreasing term sequence of length 0-5 over terms 1-3 as log, with/without a compacted "
+                "prefix, commit/applied/term/role/vote/contact/lease sampled) receives a request sequence (AppendEntries: every leader "
+                "log of the same domain, sampled prev index, entries range, leaderCommit, lower/equal/higher term, duplicates; "
+                "RequestVote: terms, candidates, last index/term around the voter's own, prevote, a rival of the same term, and a crash "
+                "after k storage writes + restart + rival; InstallSnapshot: two snapshots, 1-3 chunks, any order/duplication/offset, "
+                "followed by a probe); response and complete post-state compared with the Coq handler after every request; "
+                "distinct_nontrivial counts distinct case lines")
+
+
+def cosim_plan(exclude=(), handlers=None):
+    def drivers(ctx):
+        d = []
+        if handlers:
+            d += handler_driver(handlers)(ctx)
+        return d + cosim_drivers(exclude)(ctx)
+    return {"harness": ["cosim"] + (["handlerdiff"] if handlers else []), "drivers": drivers,
+            "rule": COSIM_RULE + (HANDLER_RULE if handlers else ""), "assumptions": COSIM_ASSUME,
+            "nontrivial": (lambda l: l.startswith("HSEQ")) if handlers else (lambda l: False)}
 
 
 PLANS = {
@@ -109,7 +135,7 @@ PLANS = {
                         "ReadDir returns names sorted, timestamps have equal digit counts"],
     },
     "C01": cosim_plan(_SAFETY_EXCL), "C02": cosim_plan(_SAFETY_EXCL), "C03": cosim_plan(_SAFETY_EXCL),
-    "C04": cosim_plan(_SAFETY_EXCL), "C05": cosim_plan(), "C06": cosim_plan(_SAFETY_EXCL), "C07": cosim_plan(_SAFETY_EXCL),
-    "C08": cosim_plan(_SAFETY_EXCL), "C09": cosim_plan(), "C10": cosim_plan(_SAFETY_EXCL), "C11": cosim_plan(_SAFETY_EXCL),
+    "C04": cosim_plan(_SAFETY_EXCL), "C05": cosim_plan(), "C06": cosim_plan(_SAFETY_EXCL, "ae"), "C07": cosim_plan(_SAFETY_EXCL),
+    "C08": cosim_plan(_SAFETY_EXCL, "rv"), "C09": cosim_plan(), "C10": cosim_plan(_SAFETY_EXCL), "C11": cosim_plan(_SAFETY_EXCL, "is"),
     "C14": cosim_plan(_SAFETY_EXCL), "C15": cosim_plan(), "C16": cosim_plan(), "C17": cosim_plan(),
 }
